@@ -87,8 +87,11 @@ def wallToWorld (pos : Vec3) (az t : Ang) (p : Vec3) : Vec3 := vadd pos (rotZ az
 def reveals (pos : Vec3) (az t : Ang) (x y w h s : Rat) : List (List Vec3) :=
   let W := wallToWorld pos az t
   [ [(0, 0), (0, -s), (w, -s), (w, 0)].map (fun p => toGlobal (W ⟨x, y + h, 0⟩) az (Ang.add t Ang.half) p.1 p.2),
-    [(0, 0), (0, -h), (s, -h), (s, 0)].map (fun p => toGlobal (W ⟨x, y + h, 0⟩) (Ang.add az Ang.half) t p.1 p.2),
-    [(0, 0), (-s, 0), (-s, -h), (0, -h)].map (fun p => toGlobal (W ⟨x + w, y + h, 0⟩) (Ang.add az (Ang.neg Ang.half)) t p.1 p.2),
+    -- the jambs are vertical surfaces turned ±90° from the wall; their polygon is turned within that plane by the wall's tilt
+    [(0, 0), (0, -h), (s, -h), (s, 0)].map (fun p =>
+      toGlobal (W ⟨x, y + h, 0⟩) (Ang.add az Ang.half) Ang.half (p.2 * t.c + p.1 * t.s) (p.2 * t.s - p.1 * t.c)),
+    [(0, 0), (-s, 0), (-s, -h), (0, -h)].map (fun p =>
+      toGlobal (W ⟨x + w, y + h, 0⟩) (Ang.add az (Ang.neg Ang.half)) Ang.half (p.1 * t.s - p.2 * t.c) (p.2 * t.s + p.1 * t.c)),
     [(0, 0), (w, 0), (w, s), (0, s)].map (fun p => toGlobal (W ⟨x, y, 0⟩) az (Ang.add t (Ang.neg Ang.half)) p.1 p.2) ]
 
 /-- twice the signed area of the triangle (0, p, q): the shoelace term -/
